@@ -56,6 +56,12 @@ def geo_sig(e, fine=True):
         return "interval~%s" % dep([e["lo"], e["hi"]])
     if k == "point":
         return "point~%s" % dep(e["p"])
+    if k == "poly":
+        r = e["rings"][0]
+        sh = sum(r[i][0] * r[(i + 1) % len(r)][1] - r[i][1] * r[(i + 1) % len(r)][0] for i in range(len(r)))
+        return "poly%d%s%s" % (len(r), "+" if sh > 0 else "-", "o" * (len(e["rings"]) - 1)) if fine else "poly"
+    if k == "mesh":
+        return "mesh%d/%d" % (len(e["fs"]), len(e["tets"])) if fine else "mesh"
     if k == "prod":             # which volume / sampling branch of ProductDomain: dependent first factor, parameters in either factor
         from .astutil import free_vars, space_vars
         fl, fr = free_vars(e["l"]), free_vars(e["r"])
@@ -67,7 +73,8 @@ def geo_sig(e, fine=True):
     if k == "trans":
         return "trans~%s(%s)" % (dep(e["t"]), geo_sig(e["d"], fine))
     if k == "rot":
-        return "rot%s~%s(%s)" % ("" if e["m"] in ("r0", "r90", "r180", "r270") or not fine else "*", dep(e["p"]), geo_sig(e["d"], fine))
+        kind = "q" if e["m"] == "quarter" else ("3" if e["m"] in ("z345", "x345", "y90", "zx") else ("" if e["m"] in ("r0", "r90", "r180", "r270") or not fine else "*"))
+        return "rot%s~%s(%s)" % (kind, dep(e["p"]), geo_sig(e["d"], fine))
     return "%s(%s)" % (k, geo_sig(e["d"], fine))
 
 
